@@ -408,12 +408,19 @@ pub fn term_not_tty(_args: &[String]) -> String {
                 let mut hist = vec![if multi { "member of a MultiProgress on a console::Term over a plain file" } else { "bar on a console::Term over a plain file" }];
                 for k in [i, j] { (ops[k].1)(&vis); (ops[k].1)(&hid); hist.push(ops[k].0); }
                 if let Some(m) = &mp { let _ = m.println("log"); m.suspend(|| ()); hist.push("mp.println(log); mp.suspend"); }
+                // handing the bar / the MultiProgress another target: the old (non-tty) terminal still sees nothing
+                if (i + j) % 2 == 0 {
+                    if let Some(m) = &mp { m.set_draw_target(ProgressDrawTarget::hidden()); hist.push("mp.set_draw_target(hidden)"); }
+                    else { hid.set_draw_target(ProgressDrawTarget::hidden()); hist.push("set_draw_target(hidden)"); }
+                }
                 let g = (vis.position(), vis.length(), vis.message(), vis.prefix(), vis.is_finished());
                 let h = (hid.position(), hid.length(), hid.message(), hid.prefix(), hid.is_finished());
                 let hidden = hid.is_hidden();
                 drop(hid);
+                hist.push("drop the bar");
+                // a MultiProgress that outlives its (possibly visibly finished, now reaped) bar, prints and is then re-targeted
+                if let Some(m) = &mp { let _ = m.println("after the drop"); m.set_draw_target(ProgressDrawTarget::hidden()); hist.push("mp.println(after the drop); mp.set_draw_target(hidden)"); }
                 drop(mp);
-                hist.push("drop");
                 let mut written = String::new();
                 let _ = file.seek(SeekFrom::Start(0));
                 let _ = file.read_to_string(&mut written);
@@ -596,6 +603,35 @@ pub fn time_laws(_args: &[String]) -> String {
             return format!("{{\"found\": true, \"clause\": \"C09 eta and duration are zero for an unknown length\", \"input\": {{\"with_elapsed_secs\": {}, \"eta_ms\": {}, \"duration_ms\": {}}}, \"rerun\": \"replay time_laws\"}}", pre, pb.eta().as_millis(), pb.duration().as_millis());
         }
     }
+    // eta = remaining steps / rate, also for lengths beyond 2^24 (f32 resolution) with only a few steps to go
+    for (len, left) in [(100_000_000u64, 4u64), (1u64 << 40, 1000), (1000, 4)] {
+        let pb = ProgressBar::hidden();
+        pb.set_length(len);
+        pb.set_position(len - left - 40);
+        pb.reset_eta();     // the jump to the start position is not progress
+        for _ in 0..4 { std::thread::sleep(Duration::from_millis(5)); pb.inc(10); }
+        let r1 = pb.per_sec();
+        let eta = pb.eta().as_secs_f64();
+        let r2 = pb.per_sec();
+        tried += 1;
+        // the rate only decays between the two reads: eta lies between left / r1 and left / r2 (1 % slack)
+        let (lo, hi) = (left as f64 / r1 * 0.99 - 1e-6, left as f64 / r2 * 1.01 + 1e-6);
+        if !(r1 > 0.0 && r2 > 0.0 && eta >= lo.min(hi) && eta <= hi.max(lo)) {
+            return format!("{{\"found\": true, \"clause\": \"C09 eta equals the remaining steps divided by the rate\", \"input\": {{\"length\": \"{}\", \"steps_left\": {}, \"rate_before\": {}, \"rate_after\": {}, \"eta_secs\": {}}}, \"rerun\": \"replay time_laws\"}}", len, left, r1, r2, eta);
+        }
+    }
+    // a bar created with_elapsed reports the same rate as a twin without it for the same updates
+    {
+        let a = ProgressBar::hidden().with_elapsed(Duration::from_secs(3600));
+        let b = ProgressBar::hidden();
+        a.set_length(1_000_000); b.set_length(1_000_000);
+        for _ in 0..6 { std::thread::sleep(Duration::from_millis(5)); a.inc(100); b.inc(100); }
+        let (ra, rb) = (a.per_sec(), b.per_sec());
+        tried += 1;
+        if !(ra > 0.0 && rb > 0.0 && ra / rb < 4.0 && rb / ra < 4.0) {
+            return format!("{{\"found\": true, \"clause\": \"C09 the rate depends on the progress seen, not on the elapsed time the bar was created with\", \"input\": {{\"history\": \"twin bars, one with_elapsed(1 h); 6 x (sleep 5 ms; inc(100)) on both\", \"rate_with_elapsed\": {}, \"rate_plain\": {}}}, \"rerun\": \"replay time_laws\"}}", ra, rb);
+        }
+    }
     // an ETA too long for a Duration saturates; it does not become zero
     {
         let pb = ProgressBar::hidden();
@@ -607,6 +643,49 @@ pub fn time_laws(_args: &[String]) -> String {
         let eta = pb.eta();
         if eta < Duration::from_secs(1 << 63) {
             return format!("{{\"found\": true, \"clause\": \"C09 eta is the remaining steps at the current rate, saturating for values a Duration cannot hold\", \"input\": {{\"history\": \"length u64::MAX; sleep 1.2 s; inc(1)\", \"eta_secs\": {}}}, \"rerun\": \"replay time_laws\"}}", eta.as_secs());
+        }
+    }
+    format!("{{\"found\": false, \"tried\": {}}}", tried)
+}
+
+/// C03: what the suspend closure writes stays, also when finished bars that were dropped have left their last frame on the
+/// screen (suspend wipes those rows together with the live bars; nothing printed afterwards may land on them).
+pub fn multi_suspend(_args: &[String]) -> String {
+    use indicatif::{InMemoryTerm, MultiProgress, ProgressBar, ProgressDrawTarget, TermLike};
+    std::panic::set_hook(Box::new(|_| {}));
+    let mut tried = 0u64;
+    for nzombies in 0usize..=2 {
+        for after in 0..4 {
+            for member in [false, true] {
+                let term = InMemoryTerm::new(10, 40);
+                let mp = MultiProgress::with_draw_target(ProgressDrawTarget::term_like(Box::new(term.clone())));
+                let mk = |m: &str| { let pb = mp.add(ProgressBar::new(10)); pb.set_style(ProgressStyle::with_template("{msg} {pos}").unwrap()); pb.set_message(m.to_string()); pb.tick(); pb };
+                let mut heads: Vec<ProgressBar> = (0..nzombies).map(|i| mk(&format!("z{}", i))).collect();
+                let live = mk("live");
+                let mut hist = vec![format!("{} bar(s) z0.. and a bar live, all ticked", nzombies)];
+                // the head bars finish visibly and are dropped from the top: each is reaped at once and stays as static text
+                while !heads.is_empty() { let h = heads.remove(0); h.finish(); drop(h); }
+                if nzombies > 0 { hist.push("finish and drop z0.. from the top".into()); }
+                let t = term.clone();
+                if member { live.suspend(|| { let _ = t.write_line("from suspend"); }); hist.push("live.suspend(|| write_line(from suspend))".into()); }
+                else { mp.suspend(|| { let _ = t.write_line("from suspend"); }); hist.push("mp.suspend(|| write_line(from suspend))".into()); }
+                let mut logs = vec!["from suspend".to_string()];
+                match after {
+                    0 => { let _ = mp.println("printed"); logs.push("printed".into()); hist.push("mp.println(printed)".into()); }
+                    1 => { live.println("through bar"); logs.push("through bar".into()); hist.push("live.println(through bar)".into()); }
+                    2 => { let _ = mp.clear(); live.tick(); hist.push("mp.clear(); live.tick()".into()); }
+                    _ => { live.inc(1); hist.push("live.inc(1)".into()); }
+                }
+                tried += 1;
+                let pos = if after == 3 { 1 } else { 0 };
+                let want = format!("{}\nlive {}", logs.join("\n"), pos);
+                let got = term.contents();
+                if got != want {
+                    let h: Vec<&str> = hist.iter().map(String::as_str).collect();
+                    return format!("{{\"found\": true, \"clause\": \"C03 lines written by the suspend closure stay, once, above the bars (suspend wipes the rows left by dropped finished bars as well)\", \"input\": {{\"history\": {}, \"expected_screen\": {}, \"screen\": {}}}, \"rerun\": \"replay multi_suspend\"}}",
+                        crate::jlist(&h), crate::js(&want), crate::js(&got));
+                }
+            }
         }
     }
     format!("{{\"found\": false, \"tried\": {}}}", tried)
